@@ -27,7 +27,7 @@ deriving Repr, Inhabited
 /-- what `Scope().Lookup(name)` finds -/
 inductive Obj
   | notIface (typeStr : Str)
-  | iface (methods : List MethodIn) (generic : Bool) (tparams : List TParamIn) (isTypeName : Bool)
+  | iface (methods : List MethodIn) (generic : Bool) (tparams : List TParamIn) (isTypeName : Bool) (typeStr : Str)
 deriving Repr, Inhabited
 
 structure Input where
@@ -128,7 +128,8 @@ def mocksAlloc (o : Ord) (fuel : Nat) (scope : List (Str × Obj)) :
     match scope.find? (·.1 = name) with
     | none => .error (.notFound name)
     | some (_, .notIface ts) => .error (.notIface name ts)
-    | some (_, .iface ms generic tps _) =>
+    | some (_, .iface _ _ _ false ts) => .error (.notIface name ts)    -- a variable/constant of interface type
+    | some (_, .iface ms generic tps true _) =>
       match methodsAlloc o fuel r ms with
       | .error f => .error (.fail f)
       | .ok (r1, mas) =>
